@@ -38,6 +38,9 @@ def generate(tier, seed):
                       "limit": 40 if tier == "quick" else 150, "rng": seed * 1000 + i, "skip_foreign_invalid": True})
         cases.append({"cid": f"mix-free-{i}", "family": "mixture-free", "kind": "solve", "spec": spec,
                       "plan": {"solver": {}}})
+    if tier != "quick":
+        # L7: the repository's own tests under the universal monitors
+        cases.append({"cid": "suite-replay", "family": "suite", "kind": "suite", "jobs": 8})
     return cases
 
 
